@@ -158,7 +158,7 @@ pub fn run(run: &mut Run) {
     let ex = run.coverage.get("exhaustive").and_then(|v| v.as_bool()).unwrap_or(false);
 
     // two concurrent writers under the controlled scheduler
-    let setup = Setup { strategy: "newer", init: vec!["set k 1".into(), "set k 1".into()], session_init: vec![vec!["use-db t tok".to_string()], vec!["use-db t tok".to_string()], vec!["use-db t tok".to_string(), "watch k".to_string()]], check_replica: false };
+    let setup = Setup { strategy: "newer", init: vec!["set k 1".into(), "set k 1".into()], session_init: vec![vec!["use-db t tok".to_string()], vec!["use-db t tok".to_string()], vec!["use-db t tok".to_string(), "watch k".to_string()]], check_replica: true };
     let base = super::c02_ilv::base_version(&setup);
     let menu = |t: usize| vec![format!("set k p{}", t), format!("set-safe k {} s{}", base, t), format!("set-safe k {} o{}", base - 1, t), "increment k".to_string()];
     let mut configs = vec![];
@@ -227,5 +227,6 @@ pub fn run(run: &mut Run) {
     run.cov("ilv_max_distinct_outcomes_per_config", json!(maxo));
     run.cov("exhaustive", json!(ex && capped == 0));
     run.assume("every write carries a unique value, so 'the stored value changes' and 'the write was stored' coincide");
-    run.assume("on one node the logical clock makes a later-issued change newer, so every write must win; replicas are covered by the cluster checks");
+    run.assume("on one node the logical clock makes a later-issued change newer, so every write must win");
+    run.assume("replicas: after every interleaving a fresh replica is fed the primary's replication queue in order and must end with the primary's value and version; executions in which the queue order differs from the order the primary applied the writes in (the same messages in another order reproduce the primary) are outside this property's premise 'applied in the primary's order' and are C04's finding KF-C04-03");
 }
